@@ -452,8 +452,8 @@ def membersLoop : Nat → St → List Bytes → List Member → Out (List Member
 def readIDL (s : St) : Out (Idl × St) := do
   let (kw, s1) ← readKeyword s
   if kw ≠ kwInterface then .err .missingInterfaceKeyword else
+  let doc := s1.lastComment            -- idl.Doc = p.lastComment.String(), before p.advance()
   let s2 ← advance s1
-  let doc := s2.lastComment
   let (name, s3) ← readInterfaceName s2
   if name = [] then .err .interfaceName else
   let (members, s4) ← membersLoop (s3.len + 2) s3 [] []
